@@ -121,7 +121,11 @@ def _normal_label(tt):
 def record(src):
     from cirbo.core.logic import DontCare
 
-    db = _db(src['db'])
+    try:
+        db = _db(src['db'])
+    except Exception as e:
+        # the shipped database cannot even be opened: every statement about its entries fails
+        return {'kind': 'same', 'what': 'shipped-database-opens:' + type(e).__name__, 'a': 0, 'b': 1, 'exc': type(e).__name__, 'src': src}
     raw = db._dict  # the stored bytes themselves are the object under test (finite shipped data set)
     out = []
     if src['k'] == 'entries':
@@ -187,6 +191,9 @@ def nontrivial(case):
 
 
 def features(case):
+    if case['kind'] == 'same':
+        yield 'database-did-not-open'
+        return
     yield case['kind'] + ':' + case['db']
     if case['kind'] == 'lookup':
         yield 'found' if case['found'] else 'absent'
